@@ -56,6 +56,17 @@ def drive(ctx):
                                                                                          "year": [52, 53]}[unit])))
                         for k in ns:
                             ctx.emit("nth_of", dict({"unit": unit, "n": k, "wd": wd}, **wc), [v])
+    # the two ends of the representable range (plain Dates): the units of year 9999 and of year 1
+    if ctx.i == 2 % ctx.n:
+        for (y, m, d) in ((9999, 12, 15), (9999, 10, 1), (9999, 11, 30), (9999, 1, 1), (1, 1, 1), (1, 12, 31), (1, 2, 14)):
+            v = {"k": "date", "w": [y, m, d], "cls": "Date"}
+            for wd in (-1, 0, 1, 2, 3, 4, 5, 6):
+                for unit in UNITS3:
+                    ctx.emit("first_of", {"unit": unit, "wd": wd}, [v])
+                    ctx.emit("last_of", {"unit": unit, "wd": wd}, [v])
+                    if wd != -1:
+                        for k in (1, 4, 5):
+                            ctx.emit("nth_of", {"unit": unit, "n": k, "wd": wd}, [v])
     # zones: days whose midnight is skipped or repeated, both folds
     full = ctx.backend == "rs" or not q
     for zn in ctx.mine(real_zone_names(ctx)) + ctx.mine(synth_zone_names(ctx)):
